@@ -3,6 +3,7 @@ package sim
 import (
 	"context"
 	"fmt"
+	"net"
 	"runtime/debug"
 	"sort"
 	"time"
@@ -74,6 +75,26 @@ func c18ServerRun(e *Env) {
 				_ = cc.Close()
 			})
 		},
+	}
+	// tcp: the last (dead) peer loses its connection and connects again from the same address and port while the
+	// application's on-close callback of the old connection is still running
+	reconnect := kind == "tcp" && t.Chance(1, 3)
+	reconnectAddr := UDPAddr("10.0.1."+fmt.Sprint(10+nPeers-1), 40000+nPeers-1)
+	gate := make(chan struct{})
+	gateOpen := false
+	openGate := func() {
+		if !gateOpen {
+			gateOpen = true
+			close(gate)
+		}
+	}
+	e.OnCleanup(openGate)
+	if reconnect {
+		mon.OnTrack = func(remote string, n int, cc interface{ AddOnClose(func()) }) {
+			if n == 1 && remote == (&net.TCPAddr{IP: reconnectAddr.IP, Port: reconnectAddr.Port}).String() {
+				cc.AddOnClose(func() { <-gate })
+			}
+		}
 	}
 	w := c10NewWorldMon(e, kind, "run", 0, mon)
 	e.Real("net/monitor/inactivity.Monitor", "net/monitor/inactivity.KeepAlive", "options.WithKeepAlive wiring of the servers (one monitor per accepted connection)")
@@ -158,6 +179,20 @@ func c18ServerRun(e *Env) {
 			}
 		}
 		return out
+	}
+	if reconnect {
+		p := peers[nPeers-1]
+		e.Fault("peer.reconnectsWhileOldConnectionEnds")
+		e.Logf("peer %d loses its connection; the application's on-close callback of that connection takes its time", p.c.id)
+		p.c.sc.peer.PeerFIN()
+		e.Wait()
+		e.Logf("peer %d connects again from %s", p.c.id, p.c.addr)
+		w.connect(p.c)
+		e.Wait()
+		e.Logf("the on-close callback of the old connection returns")
+		openGate()
+		e.Wait()
+		e.Probe("server.reconnectWhileOldConnectionEnds")
 	}
 	live := func(p *c18Peer) bool {
 		w.mu.Lock()
